@@ -543,7 +543,7 @@ static void c16_all_programs(void)
 static unsigned int C6_OLD, C6_NEW;
 static int C6_SCENARIO;
 struct c6_obs {
-	int kind; /* 0 validate, 1 get_all */
+	int kind; /* 0 validate, 1 get_all (hash index), 2 search_by_ski (list index) */
 	int q; /* query index */
 	int result; /* validate state, or number of keys */
 	int w_call;
@@ -564,7 +564,7 @@ struct c6_query {
 	int key; /* universe key index for get_all */
 	const char *name;
 };
-static struct c6_query C6_Q[6];
+static struct c6_query C6_Q[8];
 static int C6_NQ;
 
 static void c6_init_queries(void)
@@ -577,6 +577,10 @@ static void c6_init_queries(void)
 	C6_Q[C6_NQ++] = (struct c6_query){0, 6, {0x20010db8, 0, 0, 0}, 32, 100, 0, "validate(as100,2001:db8::/32) [universe rec 3]"};
 	C6_Q[C6_NQ++] = (struct c6_query){1, 0, {0}, 0, 0, 0, "get_all(key0)"};
 	C6_Q[C6_NQ++] = (struct c6_query){1, 0, {0}, 0, 0, 1, "get_all(key1)"};
+	/* the key table keeps two indexes over the same entries: the hash table serves get_all, the list serves
+	 * search_by_ski - a reload must switch both for a reader at once */
+	C6_Q[C6_NQ++] = (struct c6_query){2, 0, {0}, 0, 0, 0, "search_by_ski(key0)"};
+	C6_Q[C6_NQ++] = (struct c6_query){2, 0, {0}, 0, 0, 1, "search_by_ski(key1)"};
 }
 
 static void c6_model_for(unsigned int mask, struct mtab *pm, struct ktab *km)
@@ -607,7 +611,7 @@ static int c6_answer(const struct c6_query *q, unsigned int mask)
 	int n = 0;
 
 	for (int i = 0; i < km.n; i++)
-		if (km.r[i].asn == U_KEY[q->key].asn && !memcmp(km.r[i].ski, U_KEY[q->key].ski, SKI_SIZE))
+		if ((q->kind == 2 || km.r[i].asn == U_KEY[q->key].asn) && !memcmp(km.r[i].ski, U_KEY[q->key].ski, SKI_SIZE))
 			n++;
 	return n;
 }
@@ -642,7 +646,10 @@ static void c6_reader_body(int id)
 			struct spki_record *res = NULL;
 			unsigned int n = 0;
 
-			spki_table_get_all(&SPKI, U_KEY[q->key].asn, U_KEY[q->key].ski, &res, &n);
+			if (q->kind == 1)
+				spki_table_get_all(&SPKI, U_KEY[q->key].asn, U_KEY[q->key].ski, &res, &n);
+			else
+				spki_table_search_by_ski(&SPKI, U_KEY[q->key].ski, &res, &n);
 			lrtr_free(res);
 			o->result = (int)n;
 		}
@@ -883,7 +890,7 @@ static void c6_all(void)
 						C6_NRQ[1] = 1;
 						C6_RQ[1][0] = c;
 						/* keep the family small: the two queries of reader 1 address the same table */
-						if (C6_Q[a].kind != C6_Q[b2].kind)
+						if ((C6_Q[a].kind != 0) != (C6_Q[b2].kind != 0))
 							continue;
 						take = rp ? ((long long)C6_OLD == o_old && (long long)C6_NEW == o_new && sc == o_sc && orq[1] == a && orq[2] == b2 &&
 							     orq[4] == c) :
